@@ -178,12 +178,117 @@ pub fn prop_built(b: &Built, log: &mut CaseLog) -> Verdict {
     }
 }
 
+// ---- definitions under conditions that depend on an address (and so on the pass)
+
+#[derive(Clone, Debug, Hash, PartialEq, Eq, Serialize, Deserialize)]
+pub struct CondCase {
+    pub entropy: Vec<u32>,
+}
+
+/// A label is defined inside an `.if` whose condition compares an address that moves between the passes (it follows
+/// forward references that grow from zero page to absolute) with a page boundary. What an earlier pass defined in a
+/// branch that the final pass does not take must not survive.
+pub fn cond_program(entropy: &[u32]) -> crate::gen::ast::Program {
+    use crate::gen::ast::*;
+    use crate::gen::build::Ent;
+    use crate::model::isa::Form;
+    let mut e = Ent::new(entropy);
+    let ins = |mn: &str, form: Form, op: Option<Expr>| Stmt::Instr { mn: mn.into(), form, operand: op };
+    let mut main = vec![Stmt::SetPc(Expr::hex(0xf0 + e.below(16) as i64))];
+    let nf = 1 + e.below(3);
+    for i in 0..nf {
+        let mn = *e.pick(&["lda", "ldx", "adc", "sta", "inc"]);
+        main.push(ins(mn, Form::Plain, Some(Expr::id(&format!("fwdq{}", e.below(i + 1))))));
+    }
+    main.push(Stmt::Label { name: "aq".into(), block: None });
+    let limit = Expr::hex(0x100 + e.below(4) as i64 - 1);
+    let op = *e.pick(&[BinOp::Lt, BinOp::GtEq, BinOp::LtEq, BinOp::Gt]);
+    let branch = |e: &mut Ent, name: &str| -> Vec<Stmt> {
+        let mut v = vec![];
+        if e.chance(1, 2) {
+            v.push(ins("nop", Form::None, None));
+        }
+        v.push(Stmt::Label { name: name.into(), block: None });
+        v.push(ins(*e.pick(&["nop", "inx", "clc"]), Form::None, None));
+        v
+    };
+    let then = branch(&mut e, "staleq");
+    let els = match e.below(3) {
+        0 => Some(branch(&mut e, "staleq")),
+        1 => Some(branch(&mut e, "otherq")),
+        _ => None,
+    };
+    let in_scope = e.chance(1, 3);
+    let iff = Stmt::If { cond: Expr::bin(Expr::id("aq"), op, limit), then, els };
+    let mut rest = vec![iff];
+    for _ in 0..e.below(3) {
+        let target = if e.chance(3, 4) { "staleq" } else { "otherq" };
+        rest.push(match e.below(3) {
+            0 => ins("lda", Form::Plain, Some(Expr::id(target))),
+            1 => ins("jmp", Form::Plain, Some(Expr::id(target))),
+            _ => Stmt::Data { size: DataSize::Word, vals: vec![Expr::id(target)] },
+        });
+    }
+    if in_scope {
+        main.push(Stmt::Braces(rest));
+    } else {
+        main.extend(rest);
+    }
+    for i in 0..nf {
+        main.push(Stmt::Label { name: format!("fwdq{}", i), block: None });
+        main.push(ins("rts", Form::None, None));
+    }
+    crate::gen::build::separate_ambiguous(&mut main);
+    Program::single(main)
+}
+
+pub fn prop_cond(c: &CondCase, log: &mut CaseLog) -> Verdict {
+    let prog = cond_program(&c.entropy);
+    let (proj, _) = prog.render();
+    let a = match guarded(|| assemble(&proj, AsmOptions::default())) {
+        Ok(a) => a,
+        Err(_) => {
+            log.label("sut-panic");
+            return Verdict::Pass;
+        }
+    };
+    if a.pass_verdict != crate::sut::core::PassVerdict::Ended {
+        log.label("pass-loop-not-ended");
+        return Verdict::Pass;
+    }
+    if !a.ok() {
+        // a reference to a name that the final layout does not define has to be rejected; whether the passes settle at
+        // all is not this property's business
+        log.label("cond:assembly-failed");
+        return Verdict::Pass;
+    }
+    log.label("cond:assembled");
+    log.label(format!("passes:{}", a.passes.min(6)));
+    log.nontrivial = a.passes >= 3;
+    let image = a.segments();
+    match check_image_all(&prog, &image, 0x2000) {
+        Ok(m) => match check_symbols(&m, &a) {
+            Ok(()) => Verdict::Pass,
+            Err((kind, detail)) => Verdict::fail(format!("{}|conditional-definition", kind), format!("{}\n{}", prog.text(), detail)),
+        },
+        Err(CheckErr::Unsupported(why)) if why.contains("Undefined") => Verdict::fail(
+            "assembled-with-a-name-the-final-pass-does-not-define",
+            format!("{}\nunder the final addresses {} - no statement that is assembled defines it, yet the build succeeded\nsegments: {:x?}", prog.text(), why, image.iter().map(|s| (&s.name, s.start, s.end, &s.data)).collect::<Vec<_>>()),
+        ),
+        Err(CheckErr::Unsupported(why)) => {
+            log.label(format!("unsupported:{}", why.chars().take(40).collect::<String>()));
+            Verdict::Pass
+        }
+        Err(CheckErr::Mismatch { kind, detail }) => Verdict::fail(format!("{}|conditional-definition", kind), format!("{}\n{}", prog.text(), detail)),
+    }
+}
+
 pub fn strategy(cfg: GenCfg, max_len: usize) -> impl Strategy<Value = Case> {
     proptest::collection::vec(any::<u32>(), 8..max_len).prop_map(move |entropy| Case { entropy, cfg: cfg.clone() })
 }
 
 pub fn run_check(ctx: &mut Ctx) {
-    ctx.rule = "programs built from a u32 entropy vector (instructions over all legal forms, data, text, labels with/without blocks, nested scopes, constants from label differences, variables, `* = * + k`, .align, 1-3 segments with/without pc, segments.x.end starts, super/dotted paths, shadowed names, zero-page-boundary origins); oracle: reference layout walk that reads only ambiguous instruction sizes from the image and recomputes every byte, label and operand; then symbol table and VICE text vs model. non-trivial = assembled and (>=3 passes with a forward reference, or >=3 forward references); distinct by entropy hash".into();
+    ctx.rule = "programs built from a u32 entropy vector (instructions over all legal forms, data, text, labels with/without blocks, nested scopes, constants from label differences, variables, `* = * + k`, .align, 1-3 segments with/without pc, segments.x.end starts, super/dotted paths, shadowed names, zero-page-boundary origins); oracle: reference layout walk that reads only ambiguous instruction sizes from the image and recomputes every byte, label and operand; then symbol table and VICE text vs model. a further campaign defines a label inside an `.if` on an address that moves between the passes (zero page to absolute around $100): nothing an earlier pass defined in a branch the final pass does not take may survive in the image or the symbols, and a build that succeeds although the final layout leaves a referenced name undefined is a violation. non-trivial = assembled and (>=3 passes with a forward reference, or >=3 forward references); distinct by entropy hash".into();
     ctx.assumptions.push("model/layout.rs, model/eval.rs, model/isa.rs (reference models, no mos code)".into());
     let n = ctx.tier.pick(10_000, 300_000);
     ctx.campaign("clean-domain", n, strategy(GenCfg::c02(), 400), prop, to_json);
@@ -197,6 +302,15 @@ pub fn run_check(ctx: &mut Ctx) {
     let n2 = ctx.tier.pick(3000, 40_000);
     ctx.campaign("feature:forward_ref_to_shadowing_definition", n2, strategy(cfg, 300), prop, to_json);
 
+    let n3 = ctx.tier.pick(6000, 100_000);
+    ctx.campaign(
+        "definitions-under-address-conditions",
+        n3,
+        proptest::collection::vec(any::<u32>(), 6..40).prop_map(|entropy| CondCase { entropy }),
+        prop_cond,
+        |c| json!({"cond_entropy": c.entropy, "program": cond_program(&c.entropy).text()}),
+    );
+
     let asm = ctx.label_count("assembled");
     let total = ctx.evaluations.max(1);
     ctx.health(asm * 100 / total >= 60, format!("assembly success rate {}% < 60%", asm * 100 / total));
@@ -205,6 +319,13 @@ pub fn run_check(ctx: &mut Ctx) {
 }
 
 pub fn replay(ctx: &mut Ctx, case: &serde_json::Value) {
+    if let Some(en) = case.get("cond_entropy") {
+        match serde_json::from_value::<Vec<u32>>(en.clone()) {
+            Ok(entropy) => ctx.replay_one(&CondCase { entropy }, prop_cond, case.clone()),
+            Err(e) => ctx.health(false, format!("replay case does not deserialize: {}", e)),
+        }
+        return;
+    }
     if let Some(b) = case.get("built") {
         match serde_json::from_value::<Built>(b.clone()) {
             Ok(b) => ctx.replay_one(&b, prop_built, case.clone()),
